@@ -153,7 +153,9 @@ def rule_c18_r2(model: Model) -> RuleResult:
                     en = ecfg.node_of(c)
                     if en is not None:
                         forms = [enz.expr(a, en) for a in c.args if not isinstance(a, ast.Starred)] + [enz.expr(k.value, en) for k in c.keywords]
-                        fw = [x for x in forms if re.search(r'(\$|self\.|\.)handlers\b', x)]
+                        # (the argument itself is the handler set, or one built from it - not merely an expression that mentions it somewhere)
+                        fw = [x for x in forms if re.fullmatch(r'(handlers=)?(\$handlers|[\w.$]*\.handlers)', x)
+                              or (re.match(r'^(handlers=)?pane\.convert\.ConverterHandlers(\.\w+)?\(', x) and re.search(r'(\$|self\.|\.)handlers\b', x))]
                 except AnalysisError:
                     pass
             r.sample({'function': f.qualname, 'call': unparse(c)[:80]})
